@@ -53,6 +53,8 @@ def _build():
             (1,), NAV, configs=[{}, {"cols": cs3}], quick=3, thorough=4)
     reg.add(Schema("sum_cat3_1d", [A3], [("cat", 0)], numeric=dict(num)), (1,), NUMS,
             configs=[{}, {"rows": rs2}], quick=3, thorough=5)
+    reg.add(Schema("sumna_cat3_1d", [A3], [("cat", 0)], numeric={"measures": ["sum"], "valid_counts": True, "sum_empty": "na"}),
+            (1,), NUMS, configs=[{}, {"rows": rs2}], quick=3, thorough=4)
     reg.add(Schema("sum_numarr_1d", [], [], numeric={"measures": ["sum"], "numarr": NA}),
             (1,), NAV, configs=[{}], quick=4, thorough=6)
     return reg
